@@ -13,7 +13,8 @@ from authlib.oauth1.rfc5849.wrapper import OAuth1Request
 from authlib.oauth1.rfc5849 import signature as S
 from authlib.oauth1.rfc5849.errors import OAuth1Error
 
-RULE = ("one case = (method, URL variant, query, form body, placement, signature method, token?, realm, Host override, callback); the client signs, "
+RULE = ("one case = (method, URL variant, query, form body, placement, signature method, token?, realm, Host override, callback, signer: ClientAuth / the requests "
+        "session / the httpx client, body handed to the server as text or bytes); the client signs, "
         "the server parses and verifies, the base string is compared with an independent RFC 5849 implementation and with the Lean model, and every "
         "single-field mutation must be rejected; non-trivial = distinct case with at least one query/body parameter")
 ASSUMPTIONS = ["text is handled as UTF-8 octets in the model; parameters are valid UTF-8",
@@ -70,6 +71,10 @@ def cases(rng, tier):
             c["place"] = "QUERY"
         if c["method"] == "GET" and c["place"] == "BODY":
             c["method"] = "POST"
+        if len(out) % 4 == 1:
+            c["bytes_body"] = True
+        if len(out) % 3:
+            c["signer"] = ["requests", "httpx"][len(out) % 3 - 1]      # the request goes out through the requests / httpx integration
         k = repr(sorted(c.items(), key=lambda kv: kv[0]))
         if k in seen:
             continue
@@ -102,18 +107,39 @@ def sign(c):
         headers["Content-Type"] = "application/x-www-form-urlencoded"
     if c["host"]:
         headers["Host"] = c["host"]
-    ca = ClientAuth("client-id", client_secret=c["cs"], token="tok" if c["token"] else None, token_secret=c["ts"] if c["token"] else None,
-                    redirect_uri=c["callback"], rsa_key=priv, signature_method=c["sig"], signature_type=c["place"], realm=c["realm"])
-    uri, headers, body = ca.prepare(c["method"], url, headers, body if body is not None else "")
+    kw = dict(client_secret=c["cs"], token="tok" if c["token"] else None, token_secret=c["ts"] if c["token"] else None,
+              redirect_uri=c["callback"], rsa_key=priv, signature_method=c["sig"], signature_type=c["place"], realm=c["realm"])
+    signer = c.get("signer", "core")
+    if signer == "requests":
+        # the requests integration: what its session puts on the wire
+        import requests
+        from authlib.integrations.requests_client import OAuth1Session
+        sess = OAuth1Session("client-id", **kw)
+        prep = sess.prepare_request(requests.Request(c["method"].upper(), url, headers=headers, data=body if body else None))
+        uri, headers, body = prep.url, {k: (v.decode() if isinstance(v, bytes) else v) for k, v in prep.headers.items()}, prep.body
+    elif signer == "httpx":
+        from authlib.integrations.httpx_client import OAuth1Client
+        cl = OAuth1Client("client-id", **kw)
+        req = cl.build_request(c["method"].upper(), url, headers=headers, content=(body or "").encode() if body is not None else None)
+        req2 = next(cl.auth.auth_flow(req))
+        uri, body = str(req2.url), req2.content
+        headers = {k.title() if k.lower() in ("authorization", "host", "content-type") else k: v for k, v in req2.headers.items()}
+        if "Content-Type" not in headers and "content-type" in headers:
+            headers["Content-Type"] = headers.pop("content-type")
+    else:
+        ca = ClientAuth("client-id", **kw)
+        uri, headers, body = ca.prepare(c["method"], url, headers, body if body is not None else "")
     if isinstance(body, bytes):
         body = body.decode()
-    return uri, headers, body
+    return uri, dict(headers), body
 
 
 def server_request(c, method, uri, headers, body, cs=None, ts=None):
     priv, pub = rsa_keys()
     if cs == "<other-rsa-key>":
         cs, pub = None, other_rsa_pub()
+    if body and c.get("bytes_body"):
+        body = body.encode()               # a framework that hands the raw request body to the server
     r = OAuth1Request(method, uri, body if body else None, headers)
     r.client = _C(c["cs"] if cs is None else cs, pub)
     tsec = (c["ts"] if c["token"] else None) if ts is None else ts
